@@ -21,7 +21,7 @@ pub const ENTRY: Entry = Entry {
            plus valid i32-extreme rectangles from the C02 lattice; colour k encodes k. Oracle: controller memory == canvas in which \
            point k of the *requested* rectangle has colour k iff visible and k < length; Ok; no panic; the number of colours pulled is \
            bounded by the rectangle's point count (+ peek). The ptr16 variant compiles the real 16-bit-pointer take/skip helper bodies \
-           on this host. Non-trivial = the rectangle is clipped by at least one edge and something is visible.",
+           on this host. Plus colour sources whose size hint claims exactly the rectangle's point count while they yield more / fewer colours, and every built-in model at real size (8 initial orientations x 3 run-time orientation changes) with rectangles around the far corner. Non-trivial = the rectangle is clipped by at least one edge and something is visible.",
     assumptions: &[
         "reference controller + canvas specification",
         "ptr16: the helper bodies are pointer-width independent Rust; code generation for a real 16-bit target is not covered",
@@ -181,6 +181,68 @@ fn run(ctx: &Ctx) -> Part {
             acc
         })
         .reduce(Acc::new, Acc::merge);
+    // colour sources whose size hint says "exactly the rectangle" although they yield more / fewer colours (the hint
+    // is advisory), and every built-in model at real size after a run-time orientation change (state a model's own
+    // init leaves behind): rectangles around the far corner of the logical screen
+    let mut acc = acc;
+    {
+        let hcfgs: Vec<Cfg> = cfgs.iter().filter(|c| c.fb().0 <= 8).cloned().collect();
+        let a = hcfgs
+            .par_iter()
+            .fold(Acc::new, |mut acc, cfg| {
+                for_each_rect(cfg, true, &mut |r| {
+                    let area = r.w as u64 * r.h as u64;
+                    if area == 0 || area > 64 {
+                        return;
+                    }
+                    for len in [area + 3, area.saturating_sub(1)] {
+                        let hist = [Op::FillContiguous { r, colors: Colors::Hinted { base: 0x0700, len, hint: area } }];
+                        acc.evaluations += 1;
+                        acc.nontrivial += 1;
+                        acc.transitions += 1;
+                        acc.traces += 1;
+                        acc.count("hinted_sources", 1);
+                        if let Err((f, _)) = check_history(cfg, &hist, &Checks::ALL) {
+                            acc.violation(violation(ctx, cfg, &hist, "all", &f));
+                        }
+                    }
+                });
+                acc
+            })
+            .reduce(Acc::new, Acc::merge);
+        acc = acc.merge(a);
+        let mut bjobs: Vec<(Cfg, u8)> = Vec::new();
+        for (i, info) in BUILTINS.iter().enumerate() {
+            let tr = if info.supports[0] { Transport::RecSerial } else { Transport::RecPar8 };
+            for o in 0..8u8 {
+                for o2 in [(o + 1) % 8, o ^ 4, (o + 6) % 8] {
+                    bjobs.push((Cfg { model: ModelId::Builtin(i as u8), tr, win: None, orient: o, bgr: false, invert: false, refresh: 0, rst: false, flags: 0 }, o2));
+                }
+            }
+        }
+        let b = bjobs
+            .par_iter()
+            .fold(Acc::new, |mut acc, (cfg, o2)| {
+                let g2 = crate::spec::Geo { orient: *o2, ..cfg.geo() };
+                let (lw, lh) = g2.lsize();
+                let (mx, my) = (lw as i32, lh as i32);
+                let mut hist = vec![Op::SetOrientation(*o2)];
+                for r in [Rect { x: mx - 3, y: my - 2, w: 6, h: 4 }, Rect { x: -2, y: my - 1, w: 5, h: 3 }, Rect { x: mx - 2, y: -1, w: 4, h: 3 }, Rect { x: mx / 2, y: my - 1, w: 3, h: 1 }] {
+                    hist.push(Op::FillContiguous { r, colors: Colors::Coded { base: 0x0900 + r.w, len: None } });
+                }
+                acc.evaluations += 1;
+                acc.nontrivial += 1;
+                acc.transitions += hist.len() as u64;
+                acc.traces += 1;
+                acc.count("builtin_after_orientation_change", 1);
+                if let Err((f, _)) = check_history(cfg, &hist, &Checks::ALL) {
+                    acc.violation(violation(ctx, cfg, &hist, "all", &f));
+                }
+                acc
+            })
+            .reduce(Acc::new, Acc::merge);
+        acc = acc.merge(b);
+    }
     let bounds = json!({
         "configurations": cfgs.len(),
         "rect_top_left": "[-3, w+2] x [-3, h+2]", "rect_size": "[0, w+4] x [0, h+4]", "plus": "valid rectangles from the C02 i32 lattice",
@@ -191,5 +253,7 @@ fn run(ctx: &Ctx) -> Part {
     part.require("clipped_visible", 1000);
     part.require("fully_inside", 100);
     part.require("nothing_visible", 100);
+    part.require("hinted_sources", 100);
+    part.require("builtin_after_orientation_change", 14);
     part
 }
